@@ -149,6 +149,22 @@ Theorem conditions_ordered_reconcile : forall k pl r,
 Proof. exact subs_ordered. Qed.
 Print Assumptions conditions_ordered_reconcile.
 
+(* The two behaviours fixed in /repo (40852abfb, 3cbc43e89), for any state and any fault plan. *)
+
+(* A conflict or error of the NodePool registration-health update leaves the NodeClaim unregistered in
+   that reconcile: the retry re-runs the step, so the success is recorded. *)
+Theorem registered_only_after_pool_recorded : forall k pl r,
+  c_r (r_im r) <> RTrue -> k_pool k = true -> (f_pool_reg pl = WConflict \/ f_pool_reg pl = WErr) ->
+  c_r (r_im (registration k pl r)) <> RTrue.
+Proof. exact registered_only_after_pool_recorded_l. Qed.
+Print Assumptions registered_only_after_pool_recorded.
+
+(* One Liveness pass issues at most one Delete(claim). *)
+Theorem liveness_deletes_once : forall k pl r,
+  exists x, r_effs (liveness k pl r) = r_effs r ++ x /\ (length (filter is_del_live x) <= 1)%nat.
+Proof. exact liveness_deletes_once_l. Qed.
+Print Assumptions liveness_deletes_once.
+
 (* Non-vacuity. *)
 
 (* the happy path: one create under the finalizer patched in the same reconcile, then registration
